@@ -1685,3 +1685,35 @@ Proof.
     destruct (ex_on _ l2 l3 s2) as [[n2 s3] [e|]] eqn:HEX; [nofault Hr|].
     inv Hr. rewrite Hs, new_stall_ignored_2 in Hn by (assumption || reflexivity). discriminate.
 Qed.
+
+(** ** summaries used by Props/C07.v *)
+Lemma access_cycles_lem :
+  (forall s n a c r s', st_read s n a c = (r, s') ->
+     dpen s' = dpen s /\ cnt_step c (dpen s) (dacc s) (dhit s) (dacc s') (dhit s') (cycles s' - cycles s)) /\
+  (forall s n a v d e s', st_write s n a v d = (e, s') ->
+     dpen s' = dpen s /\
+     cnt_step (negb d) (dpen s) (dacc s) (dhit s) (dacc s') (dhit s') (cycles s' - cycles s)) /\
+  (forall s a oi s', fetch s a = (oi, s') ->
+     ipen s' = ipen s /\ cnt_step true (ipen s) (iacc s) (ihit s) (iacc s') (ihit s') (cycles s' - cycles s)) /\
+  (forall c pen acc hit acc' hit' d, cnt_step c pen acc hit acc' hit' d ->
+     d = pen * ((acc' - acc) - (hit' - hit)) /\
+     ((acc' - acc) - (hit' - hit) = 1 <-> counted_miss acc hit acc' hit')) /\
+  (forall s r s', process_ecall s = (r, s') ->
+     cycles s' = cycles s /\ dacc s' = dacc s /\ dhit s' = dhit s).
+Proof.
+  split; [intros s n a c r s' H; apply st_read_law in H; tauto|].
+  split; [intros s n a v d e s' H; apply st_write_law in H; tauto|].
+  split; [intros s a oi s' H; apply fetch_law in H; tauto|].
+  split; [exact cnt_step_penalty|].
+  intros s r s' H; apply process_ecall_law in H; tauto.
+Qed.
+
+Lemma redirecting_slots_lem :
+  (forall y rd imm abs, sl_instr y = IJal rd imm abs -> mem_flush y = sl_pcimm y) /\
+  (forall y rd rs1 imm, sl_instr y = IJalr rd rs1 imm -> mem_flush y = sl_result y) /\
+  (forall y o rs1 rs2 imm, sl_instr y = IBranch o rs1 rs2 imm ->
+     mem_flush y = match sl_cmp y with
+                   | Some true => sl_pcimm y
+                   | _ => match sl_exit y with Some _ => Some (sl_addr y + 4) | None => None end
+                   end).
+Proof. split; [exact mem_flush_jal|split; [exact mem_flush_jalr|exact mem_flush_branch]]. Qed.
